@@ -8,6 +8,7 @@ import ISnap.Driver.AlignCmd
 import ISnap.Driver.StrCmd
 import ISnap.Driver.RewriteCmd
 import ISnap.Driver.AssignCmd
+import ISnap.Driver.SessionCmd
 /-
   isnap-driver: one s-expression per line in, one per line out (DESIGN.md §3.7).
   Unknown or malformed input answers `(bad-op)`, never a default.
@@ -24,6 +25,8 @@ def handle (e : Sexp) : Sexp :=
       (StrCmd.run c rest).getD (.list [.atom "bad-op"])
     else if c == "newcode" || c == "linecol" then
       (RewriteCmd.run c rest).getD (.list [.atom "bad-op"])
+    else if c == "session" || c == "inline" || c == "tables" then
+      (SessionCmd.run c rest).getD (.list [.atom "bad-op"])
     else if c == "ping" then .list [.atom "pong"] else .list [.atom "bad-op"]
   | _ => .list [.atom "bad-op"]
 
